@@ -1,6 +1,7 @@
 import Swat4.Model.QueueSys
 import Swat4.Properties.C10
 import Swat4.Lemmas.QueueSys
+import Swat4.Lemmas.QueueDeliver
 /-!
 # C12 — Every queued probe is delivered at most once, on time and in order
 
@@ -15,6 +16,9 @@ probe, expiry, ready time, clock) and a log of entries taken out of the store by
 probe, expiry, score, clock of the batch, returned / counted expired).  `ghost_faithful` shows that erasing the
 logs gives exactly the model's run, `ghost_popped` that the model's own ghost field `QClient.popped` is the log's
 projection, and `batch_is_log` that the value a `PopMany` returns is what the log says.
+
+"At most one consumer" is `at_most_once` / `handed_at_most_one`; "exactly one if it has not expired and no consumer dies
+while holding it" is `delivered_if_live` (section 9), with `lost_if_dies` showing that the death hypothesis is needed.
 -/
 namespace Swat4.C12
 open Swat4 Std
@@ -363,5 +367,309 @@ example : ¬ (∀ (k : Nat) (e : GEnq), (reach witness [.run 0, .step 1]).enqs.l
   intro h
   have := h 1 ⟨1, 2, wp2, none, 10, 100⟩ (by decide) (by rfl)
   exact absurd this (by decide)
+
+/-! ## 9. exactly one consumer, if the probe has not expired and no consumer dies while holding it
+
+Batches are lists of probes, i.e. of *payloads*, and two different queue entries (ids) may carry equal payloads; "the
+probe occurs exactly once in the batches" is therefore stated on pop records / ids (which the log keeps) and tied to the
+payload lists position by position (`Delivery.position`, `Delivery.held`), not by counting equal payloads. -/
+
+/-- the pop record `d` is unexpired at the clock of its pop batch (the value `PopMany`'s `isItemExpired` test uses) -/
+def Unexpired (d : GPop) : Prop := d.expires = none ∨ ∃ x, d.expires = some x ∧ d.clk ≤ x
+
+theorem unexpired_iff (d : GPop) : Unexpired d ↔ expiredAt d.expires d.clk = false := by
+  unfold Unexpired expiredAt
+  cases d.expires with
+  | none => simp
+  | some x => simp
+
+/-- **the entry `id` has been handed to consumer `j`**: client `j` is a started `PopMany` call that is *not dead* and has
+finished with the batch `got` (the value its caller received), and one of the pop records that make up `j`'s batch
+(`batchRecs j pops`, whose payloads are exactly `got` by `batch_is_log`) has this id and its payload in `got`.
+A consumer that died (`dead = true`: `crashBefore` any command, or `crashAfter` a command — in particular right after the
+`ZREM+HMGET+HDEL` batch that took the entry out) never hands anything to its caller, whatever pc the model shows for it -/
+def HandedTo (g : GSys) (id j : Nat) : Prop :=
+  ∃ c n got k, g.sys.clients[j]? = some c ∧ c.op = .popMany n ∧ c.started = true ∧ c.dead = false ∧
+    c.pc = .done (.probes got k) ∧ ∃ d ∈ batchRecs j g.pops, d.id = id ∧ d.probe ∈ got
+
+/-- what is known about the enqueue record `e` once the pop record `d` has taken it out of the store -/
+structure Delivery (g : GSys) (e : GEnq) (d : GPop) : Prop where
+  /-- `d` is the record of `e` … -/
+  id : d.id = e.id
+  /-- … and the only one (`at_most_once`): hence one consumer `d.client`, one pop batch -/
+  unique : ∀ d' ∈ g.pops, d'.id = e.id → d' = d
+  /-- same probe, expiry and ready time as enqueued (`integrity`) -/
+  same : d.probe = e.probe ∧ d.expires = e.expires ∧ d.ready = some e.ready
+  /-- the consumer exists, has started, and is a `PopMany` call -/
+  owner : ∃ c n, g.sys.clients[d.client]? = some c ∧ c.started = true ∧ c.op = .popMany n
+  /-- (b) unexpired at the clock of the pop batch ⇒ appended to the batch (converse of `not_late`); expired ⇒ counted, not appended -/
+  verdict : (Unexpired d → d.returned = true) ∧ (¬ Unexpired d → d.returned = false)
+  /-- unexpired ⇒ among all records appended to some consumer's batch the id occurs exactly once; consumer by consumer:
+  once in the batch records of `d.client`, in no other consumer's -/
+  once : Unexpired d →
+    (g.pops.filter fun d' => d'.id == e.id && d'.returned).length = 1 ∧
+    ∀ j, ((batchRecs j g.pops).filter fun d' => d'.id == e.id).length = if j = d.client then 1 else 0
+  /-- expired ⇒ in nobody's batch -/
+  dropped : ¬ Unexpired d → (g.pops.filter fun d' => d'.id == e.id && d'.returned) = []
+  /-- unexpired ⇒ the record sits at a position `k` of its consumer's batch records, and the payload at position `k` of
+  the batch the log attributes to that consumer -/
+  position : Unexpired d →
+    ∃ k : Nat, (batchRecs d.client g.pops)[k]? = some d ∧ (retOf d.client g.pops)[k]? = some d.probe
+  /-- unexpired ⇒ the consumer holds the probe in its batch at every pc from the pop batch on (dead or alive: if it is
+  dead this is what was lost), and (c) if it has finished, the probe is in the batch `got` it finished with -/
+  held : Unexpired d → ∀ c, g.sys.clients[d.client]? = some c →
+    match c.pc with
+    | .popRange got _ => got = retOf d.client g.pops ∧ d.probe ∈ got
+    | .popExec got _ _ => got = retOf d.client g.pops ∧ d.probe ∈ got
+    | .done (.probes got _) => got = retOf d.client g.pops ∧ d.probe ∈ got
+    | _ => False
+  /-- **at most one** consumer, whatever happens -/
+  atMostOne : ∀ j, HandedTo g e.id j → j = d.client
+  /-- (c) **exactly one**: unexpired, and the consumer did not die (`dead = false`) and has finished its call
+  (`pc.live = false`) ⇒ the entry has been handed to `d.client` (and, by `atMostOne`, to nobody else) -/
+  exactlyOne : Unexpired d → ∀ c, g.sys.clients[d.client]? = some c → c.dead = false → c.pc.live = false →
+    HandedTo g e.id d.client
+
+theorem delivery_of {g : GSys} (hG : GInv g) (hO : PopOwner g) {e : GEnq} (he : e ∈ g.enqs) {d : GPop} (hd : d ∈ g.pops)
+    (hid : d.id = e.id) : Delivery g e d := by
+  have hend : (g.enqs.map (·.id)).Nodup := hG.enqInc.imp (fun h => Nat.ne_of_lt h)
+  have huniq : ∀ d' ∈ g.pops, d'.id = e.id → d' = d := fun d' hd' h' =>
+    eq_of_nodup_map hG.popNodup hd' hd (h'.trans hid.symm)
+  have hret : Unexpired d → d.returned = true := by
+    intro hu; rw [hG.popRet d hd, (unexpired_iff d).1 hu]; rfl
+  have hnret : ¬ Unexpired d → d.returned = false := by
+    intro hu
+    rw [hG.popRet d hd]
+    cases hx : expiredAt d.expires d.clk with
+    | true => rfl
+    | false => exact absurd ((unexpired_iff d).2 hx) hu
+  have hheld : Unexpired d → ∀ c, g.sys.clients[d.client]? = some c →
+      match c.pc with
+      | .popRange got _ => got = retOf d.client g.pops ∧ d.probe ∈ got
+      | .popExec got _ _ => got = retOf d.client g.pops ∧ d.probe ∈ got
+      | .done (.probes got _) => got = retOf d.client g.pops ∧ d.probe ∈ got
+      | _ => False := by
+    intro hu c hc
+    obtain ⟨c', n, hc', hs, hop⟩ := hO d hd
+    rw [hc] at hc'; cases hc'
+    have hm := mem_retOf hd (hret hu)
+    have h := (hG.clients _ c hc).pc hs
+    rw [hop] at h
+    cases hpc : c.pc with
+    | popRange got k => rw [hpc] at h; exact ⟨h.1, h.1 ▸ hm⟩
+    | popExec got k ids => rw [hpc] at h; exact ⟨h.1, h.1 ▸ hm⟩
+    | done r =>
+      rw [hpc] at h
+      cases r with
+      | probes got k => exact ⟨h.1, h.1 ▸ hm⟩
+      | _ => exact h
+    | _ => rw [hpc] at h; exact h
+  refine ⟨hid, huniq, ?_, hO d hd, ⟨hret, hnret⟩, ?_, ?_, fun hu => retOf_position hd (hret hu), hheld, ?_, ?_⟩
+  · obtain ⟨e', he', h1, h2, h3, h4⟩ := hG.popSrc d hd
+    have : e' = e := eq_of_nodup_map hend he' he (h1.trans hid)
+    subst this
+    exact ⟨h2.symm, h3.symm, h4⟩
+  · intro hu
+    rw [← hid]
+    refine ⟨filter_id_length_one hG.popNodup hd (fun d' => d'.returned) (hret hu), fun j => ?_⟩
+    unfold batchRecs
+    rw [List.filter_filter]
+    by_cases hj : j = d.client
+    · rw [if_pos hj]
+      exact filter_id_length_one hG.popNodup hd (fun d' => d'.client == j && d'.returned) (by simp [hj, hret hu])
+    · rw [if_neg hj]
+      have hj' : ¬ d.client = j := fun h => hj h.symm
+      rw [filter_id_nil hG.popNodup hd (fun d' => d'.client == j && d'.returned) (by simp [hj'])]
+      rfl
+  · intro hu
+    rw [← hid]
+    exact filter_id_nil hG.popNodup hd (fun d' => d'.returned) (hnret hu)
+  · rintro j ⟨c, n, got, k, hc, hop, hs, hdead, hpc, d', hd', hid', _⟩
+    obtain ⟨h1, h2, _⟩ := mem_batchRecs.1 hd'
+    rw [huniq d' h1 hid'] at h2
+    exact h2.symm
+  · intro hu c hc hdead hlive
+    obtain ⟨c', n, hc', hs, hop⟩ := hO d hd
+    rw [hc] at hc'; cases hc'
+    have h := hheld hu c hc
+    cases hpc : c.pc with
+    | done r =>
+      rw [hpc] at h
+      cases r with
+      | probes got k =>
+        exact ⟨c, n, got, k, hc, hop, hs, hdead, hpc, d, mem_batchRecs.2 ⟨hd, rfl, hret hu⟩, hid, h.2⟩
+      | _ => exact absurd h id
+    | _ => rw [hpc] at hlive; cases hlive
+
+/-- **exactly one consumer if unexpired and nobody dies while holding it** (the second half of the property; the first
+half is `at_most_once` / `Delivery.atMostOne`).  At every reachable state, every accepted enqueue `e` is in exactly one
+place: (a) still queued and in no pop record; or out of the queue and in exactly one pop record `d` — one consumer
+`d.client`, same probe / expiry / ready time — for which `Delivery` holds: (b) if `d` is unexpired at the clock of its pop
+batch it was appended to that consumer's batch (`verdict`; otherwise it was counted as expired and is in nobody's batch,
+`dropped`), its id occurs exactly once among all records appended to batches — once in `d.client`'s, in no other
+consumer's (`once`) — the consumer holds the payload at every later pc (`held`, `position`), and (c) if that consumer is not
+dead and has finished, the entry has been handed to it (`exactlyOne`) and to no other consumer (`atMostOne`).
+Assembled from `conservation`, `integrity`, `at_most_once`, `not_late` (its converse direction, `GInv.popRet`),
+`batch_is_log`, and the invariant `PopOwner` (Lemmas/QueueDeliver.lean).  The hypothesis "not dead" cannot be dropped:
+`lost_if_dies`, `lost_if_dies_done` -/
+theorem delivered_if_live (s0 : QSys) (h0 : s0.Init) (es : List QSysEv) (e : GEnq) (he : e ∈ (reach s0 es).enqs) :
+    (e.id ∈ (reach s0 es).sys.store.pQueue ∧ ∀ d ∈ (reach s0 es).pops, d.id ≠ e.id) ∨
+    (e.id ∉ (reach s0 es).sys.store.pQueue ∧ ∃ d ∈ (reach s0 es).pops, Delivery (reach s0 es) e d) := by
+  obtain ⟨hG, hO⟩ := GInvOwner.run (GInv.init h0) (PopOwner.init s0) es
+  rcases (hG.cover e.id).1 (List.mem_map.2 ⟨e, he, rfl⟩) with hq | hp
+  · refine Or.inl ⟨hq, fun d hd hid => ?_⟩
+    exact hG.popOut e.id (List.mem_map.2 ⟨d, hd, hid⟩) hq
+  · obtain ⟨d, hd, hid⟩ := List.mem_map.1 hp
+    exact Or.inr ⟨hG.popOut e.id hp, d, hd, delivery_of hG hO he hd hid⟩
+
+/-- **at most one consumer** in terms of `HandedTo`: an id is never handed to two consumers (any reachable state, any
+deaths, expired or not) -/
+theorem handed_at_most_one (s0 : QSys) (h0 : s0.Init) (es : List QSysEv) (id j1 j2 : Nat)
+    (h1 : HandedTo (reach s0 es) id j1) (h2 : HandedTo (reach s0 es) id j2) : j1 = j2 := by
+  obtain ⟨_, _, _, _, _, _, _, _, _, d1, hd1, hid1, _⟩ := h1
+  obtain ⟨_, _, _, _, _, _, _, _, _, d2, hd2, hid2, _⟩ := h2
+  obtain ⟨m1, c1, _⟩ := mem_batchRecs.1 hd1
+  obtain ⟨m2, c2, _⟩ := mem_batchRecs.1 hd2
+  rw [← c1, ← c2]
+  exact (at_most_once s0 h0 es d1 d2 m1 m2 (hid1.trans hid2.symm)).2
+
+/-- the same in the final state the driver compares (events, then `finish`: every client that is not dead has finished
+unless the fuel ran out) -/
+theorem delivered_if_live_final (s0 : QSys) (h0 : s0.Init) (es : List QSysEv) (fuel : Nat) (e : GEnq)
+    (he : e ∈ ((reach s0 es).finish fuel).enqs) :
+    (e.id ∈ ((reach s0 es).finish fuel).sys.store.pQueue ∧ ∀ d ∈ ((reach s0 es).finish fuel).pops, d.id ≠ e.id) ∨
+    (e.id ∉ ((reach s0 es).finish fuel).sys.store.pQueue ∧
+      ∃ d ∈ ((reach s0 es).finish fuel).pops, Delivery ((reach s0 es).finish fuel) e d) := by
+  obtain ⟨hG, hO⟩ := GInvOwner.finish ((GInv.init h0).run es) (GInvOwner.run (GInv.init h0) (PopOwner.init s0) es).2 fuel
+  rcases (hG.cover e.id).1 (List.mem_map.2 ⟨e, he, rfl⟩) with hq | hp
+  · refine Or.inl ⟨hq, fun d hd hid => ?_⟩
+    exact hG.popOut e.id (List.mem_map.2 ⟨d, hd, hid⟩) hq
+  · obtain ⟨d, hd, hid⟩ := List.mem_map.1 hp
+    exact Or.inr ⟨hG.popOut e.id hp, d, hd, delivery_of hG hO he hd hid⟩
+
+/-! ### non-vacuity, and why "no consumer dies while holding it" is needed -/
+
+set_option maxRecDepth 100000 in
+/-- non-vacuity of `delivered_if_live`: on the witness system with the schedule "producer 0 runs, the consumer runs"
+(`[.run 0, .run 1]`) the enqueue of `wp1` (id 0) is in the second case, its pop record is unexpired, the consumer is alive
+and done — so the entry has been handed to consumer 1, whose returned batch is `[wp1]`, and to nobody else -/
+example :
+    HandedTo (reach witness [.run 0, .run 1]) 0 1 ∧
+    (∀ j, HandedTo (reach witness [.run 0, .run 1]) 0 j → j = 1) ∧
+    ((reach witness [.run 0, .run 1]).pops.filter fun d' => d'.id == 0 && d'.returned).length = 1 ∧
+    (((reach witness [.run 0, .run 1]).sys.clients[1]?).map (·.pc)) = some (.done (.probes [wp1] 0)) := by
+  have henqs : (reach witness [.run 0, .run 1]).enqs = [⟨0, 0, wp1, none, 50, 100⟩] := by rfl
+  have hpops : (reach witness [.run 0, .run 1]).pops = [⟨0, 1, wp1, none, some 50, 100, true⟩] := by rfl
+  have hdead : ((reach witness [.run 0, .run 1]).sys.clients[1]?).map (·.dead) = some false := by rfl
+  have hpc : ((reach witness [.run 0, .run 1]).sys.clients[1]?).map (·.pc) = some (.done (.probes [wp1] 0)) := by rfl
+  have h := delivered_if_live witness witness_init [.run 0, .run 1] ⟨0, 0, wp1, none, 50, 100⟩
+    (by rw [henqs]; exact List.mem_singleton.2 rfl)
+  rcases h with ⟨_, hno⟩ | ⟨_, d, hd, hD⟩
+  · exact absurd rfl (hno ⟨0, 1, wp1, none, some 50, 100, true⟩ (by rw [hpops]; exact List.mem_singleton.2 rfl))
+  · rw [hpops] at hd
+    have hd' := List.mem_singleton.1 hd
+    subst hd'
+    have hu : Unexpired ⟨0, 1, wp1, none, some 50, 100, true⟩ := Or.inl rfl
+    obtain ⟨c, n, hc, _, _⟩ := hD.owner
+    have hc1 : (reach witness [.run 0, .run 1]).sys.clients[1]? = some c := hc
+    rw [hc1] at hdead hpc
+    simp only [Option.map_some, Option.some.injEq] at hdead hpc
+    exact ⟨hD.exactlyOne hu c hc hdead (by rw [hpc]; rfl), hD.atMostOne, (hD.once hu).1, by rw [hc1]; simp [hpc]⟩
+
+set_option maxRecDepth 100000 in
+/-- non-vacuity of `delivered_if_live_final`: producer 0 runs, then the completion phase runs everybody round-robin (the
+consumer and the late producer 2 interleaved): entry 0 has been handed to consumer 1, which finishes with `[wp1, wp2]` -/
+example :
+    HandedTo ((reach witness [.run 0]).finish 10) 0 1 ∧
+    ((((reach witness [.run 0]).finish 10).sys.clients[1]?).map (·.pc)) = some (.done (.probes [wp1, wp2] 0)) := by
+  have henqs : ((reach witness [.run 0]).finish 10).enqs = [⟨0, 0, wp1, none, 50, 100⟩, ⟨1, 2, wp2, none, 10, 100⟩] := by rfl
+  have hpops : ((reach witness [.run 0]).finish 10).pops =
+      [⟨0, 1, wp1, none, some 50, 100, true⟩, ⟨1, 1, wp2, none, some 10, 100, true⟩] := by rfl
+  have hdead : (((reach witness [.run 0]).finish 10).sys.clients[1]?).map (·.dead) = some false := by rfl
+  have hpc : (((reach witness [.run 0]).finish 10).sys.clients[1]?).map (·.pc) = some (.done (.probes [wp1, wp2] 0)) := by rfl
+  refine ⟨?_, hpc⟩
+  have h := delivered_if_live_final witness witness_init [.run 0] 10 ⟨0, 0, wp1, none, 50, 100⟩
+    (by rw [henqs]; exact List.mem_cons_self)
+  rcases h with ⟨_, hno⟩ | ⟨_, d, hd, hD⟩
+  · exact absurd rfl (hno ⟨0, 1, wp1, none, some 50, 100, true⟩ (by rw [hpops]; exact List.mem_cons_self))
+  · have hd0 : d = ⟨0, 1, wp1, none, some 50, 100, true⟩ :=
+      (hD.unique _ (by rw [hpops]; exact List.mem_cons_self) rfl).symm
+    subst hd0
+    obtain ⟨c, n, hc, _, _⟩ := hD.owner
+    have hc1 : ((reach witness [.run 0]).finish 10).sys.clients[1]? = some c := hc
+    rw [hc1] at hdead hpc
+    simp only [Option.map_some, Option.some.injEq] at hdead hpc
+    exact hD.exactlyOne (Or.inl rfl) c hc hdead (by rw [hpc]; rfl)
+
+/-- producer 0 runs; the consumer issues its `ZRANGEBYSCORE`, then dies right after its `ZREM+HMGET+HDEL` batch returned
+(`crashAfter`); a later attempt to run it does nothing -/
+def deadEvents : List QSysEv := [.run 0, .step 1, .crashAfter 1, .run 1]
+
+set_option maxRecDepth 100000 in
+/-- **the hypothesis "no consumer dies while holding it" is needed**: on the witness system, if the consumer dies right
+after its pop batch, the unexpired entry 0 (`wp1`) is out of the store and in the pop log — taken by consumer 1, appended to
+its batch — but the consumer is dead (standing at its next `ZRANGEBYSCORE`, holding `[wp1]`), so the entry has been handed
+to nobody: the probe is lost (at most once, not exactly once) -/
+theorem lost_if_dies :
+    witness.Init ∧
+    ((reach witness deadEvents).enqs.map fun e => (e.id, e.probe, e.expires)) = [(0, wp1, none)] ∧
+    (reach witness deadEvents).pops = [⟨0, 1, wp1, none, some 50, 100, true⟩] ∧
+    Unexpired ⟨0, 1, wp1, none, some 50, 100, true⟩ ∧
+    ((reach witness deadEvents).sys.clients.map fun c => (c.dead, c.pc)) =
+      [(false, .done .unit), (true, .popRange [wp1] 0), (false, .start)] ∧
+    0 ∉ (reach witness deadEvents).sys.store.pQueue ∧
+    ∀ j, ¬ HandedTo (reach witness deadEvents) 0 j := by
+  have hpops : (reach witness deadEvents).pops = [⟨0, 1, wp1, none, some 50, 100, true⟩] := by rfl
+  have hdead : ((reach witness deadEvents).sys.clients[1]?).map (·.dead) = some true := by rfl
+  refine ⟨witness_init, by rfl, hpops, Or.inl rfl, by rfl, ?_, ?_⟩
+  · exact (conservation witness witness_init deadEvents).2.1 0 (by rw [hpops]; exact List.mem_singleton.2 rfl)
+  · rintro j ⟨c, n, got, k, hc, _, _, hd, _, d, hdm, _, _⟩
+    obtain ⟨h1, h2, _⟩ := mem_batchRecs.1 hdm
+    rw [hpops] at h1
+    have := List.mem_singleton.1 h1
+    subst this
+    subst h2
+    have hc1 : (reach witness deadEvents).sys.clients[1]? = some c := hc
+    rw [hc1] at hdead
+    simp only [Option.map_some, Option.some.injEq] at hdead
+    rw [hd] at hdead
+    cases hdead
+
+/-- clock 100; producer 0 enqueues `wp1` ready at 50; consumer 1 is a `PopMany 1` -/
+def witnessOne : QSys :=
+  { clock := 100
+    clients := [{ op := .enqueue wp1 (some 50) none, pc := .start },
+                { op := .popMany 1, pc := .start }] }
+
+theorem witnessOne_init : witnessOne.Init := by
+  refine ⟨RStore.consistent_empty, fun id => by simp [witnessOne], ?_⟩
+  intro c hc
+  simp only [witnessOne, List.mem_cons, List.not_mem_nil, or_false] at hc
+  rcases hc with rfl | rfl <;> exact ⟨rfl, fun h => by cases h⟩
+
+set_option maxRecDepth 100000 in
+/-- … and `dead = false` is needed in `HandedTo` / `Delivery.exactlyOne` even when the model shows the pc `done`: a
+`PopMany 1` whose process dies right after the pop batch has the pc its call would have returned from
+(`done (probes [wp1] 0)`), but it is dead: its caller received nothing, nobody was handed the entry -/
+theorem lost_if_dies_done :
+    witnessOne.Init ∧
+    (reach witnessOne [.run 0, .step 1, .crashAfter 1]).pops = [⟨0, 1, wp1, none, some 50, 100, true⟩] ∧
+    ((reach witnessOne [.run 0, .step 1, .crashAfter 1]).sys.clients.map fun c => (c.dead, c.pc)) =
+      [(false, .done .unit), (true, .done (.probes [wp1] 0))] ∧
+    ∀ j, ¬ HandedTo (reach witnessOne [.run 0, .step 1, .crashAfter 1]) 0 j := by
+  have hpops : (reach witnessOne [.run 0, .step 1, .crashAfter 1]).pops = [⟨0, 1, wp1, none, some 50, 100, true⟩] := by rfl
+  have hdead : ((reach witnessOne [.run 0, .step 1, .crashAfter 1]).sys.clients[1]?).map (·.dead) = some true := by rfl
+  refine ⟨witnessOne_init, hpops, by rfl, ?_⟩
+  rintro j ⟨c, n, got, k, hc, _, _, hd, _, d, hdm, _, _⟩
+  obtain ⟨h1, h2, _⟩ := mem_batchRecs.1 hdm
+  rw [hpops] at h1
+  have := List.mem_singleton.1 h1
+  subst this
+  subst h2
+  have hc1 : (reach witnessOne [.run 0, .step 1, .crashAfter 1]).sys.clients[1]? = some c := hc
+  rw [hc1] at hdead
+  simp only [Option.map_some, Option.some.injEq] at hdead
+  rw [hd] at hdead
+  cases hdead
 
 end Swat4.C12
